@@ -104,6 +104,66 @@ theorem dirManifest_placed (placed : Placed) : dirManifest (placed.map dirEntry)
     simp only [dirManifest, List.map_cons, List.flatMap_cons] at ih ⊢
     rw [ih]; rfl
 
+theorem insertByName_perm (e : Name × Content) (z : Zip) : (insertByName e z).Perm (e :: z) := by
+  induction z with
+  | nil => exact List.Perm.refl _
+  | cons f t ih =>
+    simp only [insertByName]
+    by_cases h : nameLe e.1 f.1 = true
+    · simp only [h, if_true]; exact List.Perm.refl _
+    · simp only [h]
+      exact (List.Perm.cons f ih).trans (List.Perm.swap e f t)
+
+/-- reading a directory in file-name order is reading the same files -/
+theorem dirSorted_perm (d : Dir) : (dirSorted d).Perm d := by
+  induction d with
+  | nil => exact List.Perm.refl _
+  | cons e t ih =>
+    simp only [dirSorted, List.foldr_cons]
+    exact (insertByName_perm e _).trans (List.Perm.cons e ih)
+
+theorem dirLoadSorted_perm (d : Dir) : (dirLoadSorted d).Perm (dirLoad d) := by
+  unfold dirLoadSorted dirLoad
+  exact List.Perm.flatMap_right _ (dirSorted_perm d)
+
+/-- `sig cat --unique`: one signature per md5, the first one; nothing invented, every md5 kept -/
+theorem mem_catUnique (l : List Sig) (s : Sig) : s ∈ catUnique l → s ∈ l := by
+  induction l with
+  | nil => intro h; cases h
+  | cons a t ih =>
+    intro h
+    simp only [catUnique, List.mem_cons, List.mem_filter] at h
+    rcases h with h | h
+    · simp [h]
+    · exact List.mem_cons_of_mem _ (ih h.1)
+
+theorem catUnique_md5_nodup (l : List Sig) : ((catUnique l).map (·.md5)).Nodup := by
+  induction l with
+  | nil => simp [catUnique]
+  | cons a t ih =>
+    simp only [catUnique, List.map_cons, List.nodup_cons, List.mem_map, List.mem_filter]
+    refine ⟨?_, ?_⟩
+    · rintro ⟨s, ⟨_, hne⟩, e⟩
+      simp only [ne_eq, decide_not, Bool.not_eq_eq_eq_not, Bool.not_true, decide_eq_false_iff_not] at hne
+      exact hne e
+    · rw [List.Nodup, List.pairwise_map] at ih ⊢
+      exact List.Pairwise.filter _ ih
+
+theorem catUnique_covers (l : List Sig) (s : Sig) (h : s ∈ l) : ∃ t ∈ catUnique l, t.md5 = s.md5 := by
+  induction l with
+  | nil => cases h
+  | cons a t ih =>
+    simp only [List.mem_cons] at h
+    by_cases e : s.md5 = a.md5
+    · exact ⟨a, by simp [catUnique], e.symm⟩
+    · rcases h with h | h
+      · subst h; exact absurd rfl e
+      · obtain ⟨u, hu, hm⟩ := ih h
+        refine ⟨u, ?_, hm⟩
+        simp only [catUnique, List.mem_cons, List.mem_filter]
+        right
+        exact ⟨hu, by simp [hm, e]⟩
+
 /-! ### the SQLite hash mapping -/
 
 theorem convert_roundtrip (x : Nat) (h : x < 2 ^ 64) : convertHashFrom (convertHashTo x) = x := by
